@@ -2013,7 +2013,7 @@ fn adt_water(seed: u64) -> String {
 
 // ---- C05: "requesting memory out of proportion to the input size" -------------------------------------------------------
 // tiny files whose size / count fields are hostile: the largest single allocation request made while parsing must stay within
-// 16 MiB + 64 x input length.  `only` selects one family ("wdt", "wdl", "blp", "dbc", "mpq"); empty = all.
+// 16 MiB + 64 x input length.  `only` selects one family ("wdt", "wdl", "blp", "dbc", "mpq", "m2", "adt", "wmo"); empty = all.
 fn alloc_bound(only: &str) -> String {
     use crate::alloc_track;
     let chunk = |magic: &[u8; 4], size: u32, payload: &[u8]| -> Vec<u8> { let mut v = magic.to_vec(); v.extend_from_slice(&size.to_le_bytes()); v.extend_from_slice(payload); v };
@@ -2057,6 +2057,27 @@ fn alloc_bound(only: &str) -> String {
         v.resize(2048, 0);
         cases.push(("mpq", format!("MPQ V1 header: hash table {:#x} entries, block table {:#x} entries, 2048-byte file", hn, bn), v));
     }
+    // M2: MD20 header whose every (count, offset) pair declares a huge array at a small offset
+    for ver in [256u32, 260, 264, 272] { for cnt in [0x0FFF_FFFFu32, 0xFFFF_FFFF, 0x4000_0000] {
+        let mut v = b"MD20".to_vec(); v.extend_from_slice(&ver.to_le_bytes());
+        while v.len() < 512 { v.extend_from_slice(&cnt.to_le_bytes()); v.extend_from_slice(&0x40u32.to_le_bytes()); }
+        cases.push(("m2", format!("M2 version {}: 512-byte header whose array fields all declare {:#x} elements at offset 0x40", ver, cnt), v));
+    }}
+    // ADT / WMO: MVER + one chunk header with a hostile size
+    for m in [b"XETM", b"XDMM", b"DIMM", b"OMWM", b"DIWM", b"FDDM", b"FDOM", b"NICM", b"KNCM", b"O2HM", b"RDHM", b"OBFM", b"FXTM"] {
+        for size in [0xFFFF_FF00u32, 0x7FFF_FFC0, 0x1000_0000] {
+            let mut f = chunk(b"REVM", 4, &18u32.to_le_bytes());
+            f.extend(chunk(m, size, &[1, 2, 3, 4, 5, 6, 7, 8]));
+            cases.push(("adt", format!("ADT: MVER + chunk {:?} declaring {:#x} bytes, 8 payload bytes", String::from_utf8_lossy(&m.iter().rev().cloned().collect::<Vec<u8>>()), size), f));
+        }
+    }
+    for m in [b"DHOM", b"XTOM", b"TMOM", b"NGOM", b"IGOM", b"BSOM", b"VPOM", b"TPOM", b"RPOM", b"VVOM", b"BVOM", b"TLOM", b"SDOM", b"NDOM", b"DDOM", b"GOFM", b"PGOM", b"YPOM", b"IVOM", b"TVOM", b"RNOM"] {
+        for size in [0xFFFF_FF00u32, 0x7FFF_FFC0, 0x1000_0000] {
+            let mut f = chunk(b"REVM", 4, &17u32.to_le_bytes());
+            f.extend(chunk(m, size, &[1, 2, 3, 4, 5, 6, 7, 8]));
+            cases.push(("wmo", format!("WMO: MVER + chunk {:?} declaring {:#x} bytes, 8 payload bytes", String::from_utf8_lossy(&m.iter().rev().cloned().collect::<Vec<u8>>()), size), f));
+        }
+    }
     let mut tried = 0;
     for (fam, desc, bytes) in cases {
         if !only.is_empty() && only != fam { continue; }
@@ -2068,6 +2089,9 @@ fn alloc_bound(only: &str) -> String {
                 "wdt" => { let _ = wow_wdt::WdtReader::new(std::io::Cursor::new(b2), wow_wdt::version::WowVersion::WotLK).read().is_ok(); }
                 "wdl" => { let _ = wow_wdl::parser::WdlParser::new().parse(&mut std::io::Cursor::new(b2)).is_ok(); }
                 "blp" => { let _ = wow_blp::parser::parse_blp(&b2).is_ok(); }
+                "m2" => { let _ = wow_m2::parse_m2(&mut std::io::Cursor::new(b2)).is_ok(); }
+                "adt" => { let _ = wow_adt::parse_adt(&mut std::io::Cursor::new(b2)).is_ok(); }
+                "wmo" => { let _ = wow_wmo::parse_wmo(&mut std::io::Cursor::new(b2.clone())).is_ok(); let _ = wow_wmo::WmoParser::new().parse_root(&mut std::io::Cursor::new(b2)).is_ok(); }
                 "dbc" => {
                     use wow_cdbc::{DbcParser, FieldType, Schema, SchemaField};
                     let mut sc = Schema::new("t"); sc.add_field(SchemaField::new("a", FieldType::UInt32));
